@@ -46,7 +46,7 @@ func runC15(t *testing.T, seed uint64, m *Mask) *Report {
 	sc, nc, r := swarm(seed, m)
 	opt := world.Options{Seed: seed, Sim: sc, Net: nc}
 	proto := []string{"raw", "raw", "json", "pb", "thrift-binary"}[r.Intn(5)]
-	kinds := []string{"ok", "notfound", "badbody", "panic", "veto", "closed_call", "cut_pending", "dial_fail", "proxy_ok", "proxy_ok", "proxy_backend_closed", "proxy_push_backend_closed", "proxy_backend_cut", "proxy_push_ok"}
+	kinds := []string{"ok", "notfound", "badbody", "panic", "veto", "closed_call", "cut_pending", "dial_fail", "proxy_ok", "proxy_ok", "proxy_backend_closed", "proxy_push_backend_closed", "proxy_backend_cut", "proxy_push_ok", "reply_write_fails"}
 	n := 3 + r.Intn(13)
 	var hist []string
 	for i := 0; i < n; i++ {
@@ -187,6 +187,17 @@ func runC15(t *testing.T, seed uint64, m *Mask) *Report {
 				simrt.WaitCond(func() bool { return done })
 			case "dial_fail":
 				cli.Dial("10.66.6.6:1", pf)
+			case "reply_write_fails":
+				// the server's write of the reply (to a call that fails in the framework, fails in the handler
+				// or succeeds) returns an error after a few bytes: the 104 path and its fallback reply
+				s, _, _, cb := e.ServePair(cli, backend, pf, pf)
+				cb.FailWrite(0, e.Gen.Intn(6))
+				op := mkop("call", []string{"/nope", "/nope", "echo"}[e.Gen.Intn(3)])
+				if op.Route == "echo" && e.Gen.Chance(0.5) {
+					op.HCode, op.HStatus = 1009, [3]string{"", "scripted", "cause"}
+				}
+				e.Issue(s, rt, op, nil)
+				s.Close()
 			case "proxy_ok", "proxy_push_ok":
 				if !fwd.Health() {
 					connectBackend()
